@@ -26,19 +26,18 @@ DevOn(d) == ReplaceFirstSubSeq("", "," \o d \o ",", DevList) # DevList
 
 (* named deviations: genuine defects of the pinned tree (proposed_fixes/C08-*.md) *)
 Deviations == <<
-  [id |-> "include-reads-file",  name |-> "include", cfgs |-> {"bare", "std", "cmd"},
+  [id |-> "include-reads-file", names |-> {"include"}, cfgs |-> {"bare", "std", "cmd"},
    events |-> {"leak", "open"}],
-  [id |-> "stdsetup-sys", name |-> "sys",    cfgs |-> {"std", "cmd"},
-   events |-> {"marker", "leak", "open", "create", "modify"}],
-  [id |-> "stdsetup-import", name |-> "import", cfgs |-> {"std", "cmd"},
-   events |-> {"leak", "open"}] >>
+  (* StandardSetup installs the builders sys (a shell: any file or exec event) and import *)
+  [id |-> "stdsetup-builders", names |-> {"sys", "import"}, cfgs |-> {"std", "cmd"},
+   events |-> {"marker", "leak", "open", "create", "modify"}] >>
 
 Elems(s) == {s[k] : k \in 1..Len(s)}
 
 (* index of the first enabled deviation that explains the events of a probe of case c; 0: none *)
 Explains(c, evset) ==
     LET ok(k) == /\ DevOn(Deviations[k].id)
-                 /\ Deviations[k].name \in Elems(c.names)
+                 /\ Deviations[k].names \cap Elems(c.names) # {}
                  /\ c.cfg \in Deviations[k].cfgs
                  /\ evset \subseteq Deviations[k].events
         S == {k \in 1..Len(Deviations) : ok(k)}
